@@ -13,7 +13,8 @@
    7 units <= 65535 < 8 units, so the model's limit is the real limit.                              *)
 EXTENDS OTLPack, TLC, Json
 
-CONSTANTS N, Sizes
+CONSTANTS N, Sizes,
+          GenMaxN, GenMod     \* export every graph with <= GenMaxN nodes and every GenMod-th (by a content code) larger one
 VARIABLES path
 mvars == <<graph, phase, kidsNow, gath, layout, result, path>>
 
@@ -56,7 +57,10 @@ Seal ==
 
 MNext == AddNode \/ Seal \/ (PNext /\ UNCHANGED path)
 
-GenEmit == phase = "built" => PrintT(<<"GEN", ToJson(graph)>>)
+RECURSIVE Code(_, _)
+Code(g, n) == IF n = 0 THEN 0 ELSE n * g[n].size + 3 * Len(g[n].kids) + (IF g[n].cov THEN 5 ELSE 0) + (IF g[n].ext THEN 7 ELSE 0)
+                                   + (IF g[n].ds THEN 11 ELSE 0) + (IF g[n].cl THEN 13 ELSE 0) + g[n].data + Code(g, n - 1)
+GenEmit == (phase = "built" /\ (Len(graph) <= GenMaxN \/ Code(graph, Len(graph)) % GenMod = 0)) => PrintT(<<"GEN", ToJson(graph)>>)
 
 (* non-vacuity: counted by the harness from these prints (one per emitted graph) *)
 Stat == phase = "emitted" =>
